@@ -1,4 +1,5 @@
 import Proofs.ClientV
+import Proofs.TileAuth
 /-! C12 — The monitoring client never yields unauthenticated log content. Property theorems only.
 
 The theorems are about `Model/ClientV.lean` (`cutEntry`, `scanTile`, `clientEntry`, `checkInclusion`,
@@ -32,6 +33,33 @@ theorem C12_entries_authentic (hf : HashFn H) (hinj : LeafInj hf) (allow : Bool)
   refine ⟨h1, h2, h3, ⟨m, hm, hL⟩, ?_⟩
   intro g wg _ hg
   exact mtl_inj e g wf wg (by rw [hm, hg, hL])
+
+/-- **C12_entries_authentic_tiles.** The same statement with the tile reader's contract DISCHARGED: instead of assuming
+that the leaf hashes the entries are compared with are authentic (`hauth`), assume only what
+`tlog.TileHashReader.ReadHashes` has checked when it returns them (`TileAuth.Verified`): the right-edge hash tiles, with
+the widths the tree size prescribes, recombine to the root of the tree head, and the level-0 hash tile in question is
+either the edge tile of level 0 or hashes, tile by tile, up to an entry of a tile checked before it. All served hash
+tiles are arbitrary. (`Proofs/TileAuth.lean`: soundness of tile authentication for every tree size and tile level, from
+`NodeInj` alone; `edge_complete` / `child_complete` show the hypotheses are met by the authentic tiles of every tree.) -/
+theorem C12_entries_authentic_tiles (hf : HashFn H) (hinj : LeafInj hf) (hnode : NodeInj hf.node) (allow : Bool)
+    (start : Nat) (data : Bytes) (t : Tree H) (L : List Bytes) (hopen : Opens hf t L) (hne : L ≠ [])
+    (edges : Nat → List H) (T N : Nat) (hs : List H)
+    (hT : t.n < 256 ^ T)
+    (hw : ∀ j, (edges j).length = TileAuth.edgeWidth t.n j)
+    (hroot : TileAuth.edgeF hf.node hf.empty edges T = some t.root)
+    (hv : TileAuth.Verified hf.node hf.empty t.n edges 0 N hs)
+    (i : Nat) (e : LogEntry) (hy : (i, e) ∈ (scanTile hf allow start (N * 256) data hs).1) :
+    start ≤ i ∧ N * 256 ≤ i ∧ i < N * 256 + hs.length ∧
+      (∃ m, merkleTreeLeaf e = some m ∧ L[i]? = some m) ∧
+      (∀ g : LogEntry, WF g → (merkleTreeLeaf g).isSome → merkleTreeLeaf g = L[i]? → covered e = covered g) := by
+  obtain ⟨hlen, hr⟩ := hopen
+  have hB : (L.map hf.leaf).length = t.n := by rw [List.length_map, hlen]
+  have hBne : L.map hf.leaf ≠ [] := by
+    intro h; apply hne; exact List.map_eq_nil_iff.1 h
+  have hauth : ∀ k h, hs[k]? = some h → (L.map hf.leaf)[N * 256 + k]? = some h :=
+    TileAuth.verified_leaf_hashes hf.node hf.empty hnode (L.map hf.leaf) edges T hBne (by rw [hB]; exact hT)
+      (by rw [hB]; exact hw) (by rw [hr]; exact hroot) (by rw [hB]; exact hv)
+  exact C12_entries_authentic hf hinj allow start (N * 256) data hs t L ⟨hlen, hr⟩ hauth i e hy
 
 /-- **C12_entry_index / authentic.** `Client.Entry(tree, index)` — for any served tile and any
 proof — returns only an entry whose Merkle leaf is the committed leaf at `index`, and (unless it
